@@ -244,6 +244,13 @@ def cascade_cases(draw, tier, formats=None, want_range=False):
     parents = sorted(set(rp.parent(p) for p in pos))
     if draw(st.integers(0, 2)) == 0 and not want_range:
         case["stale"] = [list(parents[draw(st.integers(0, len(parents) - 1))])]
+        if mode in ("F32", "F64") and fmt in ("fits", "npy") and draw(st.booleans()):
+            # ... and everything beneath it is now entirely undefined: the left-over parent must go
+            for spec in leaves:
+                if rp.parent(tuple(spec["pos"])) == tuple(case["stale"][0]):
+                    spec["kind"] = "allnan"
+                    spec.pop("via", None)
+                    spec.pop("inf", None)
     if draw(st.integers(0, 2)) == 0:
         # a tile filter that accepts every populated tile and its ancestors (plus some extras)
         acc = set()
